@@ -568,3 +568,141 @@ def _r6(repo: Repo, ctx) -> None:
                        fn.loc, sample=f'{acc} updated per iteration')
     if n_f < 2:
         raise AnalysisError(f'C12.R8: only {n_f} common-type folds found')
+    _r9(repo, ctx)
+
+
+def _roots(fn_node: ast.AST, name: str, params: Set[str],
+           seen: Optional[Set[str]] = None) -> Set[str]:
+    """Parameters a local's value is (flow-insensitively) derived from;
+    subscript indices and called function names do not count."""
+    seen = set() if seen is None else seen
+    if name in seen:
+        return set()
+    seen.add(name)
+    if name in params:
+        return {name}
+
+    def srcs(e: ast.AST) -> Set[str]:
+        out: Set[str] = set()
+        st = [e]
+        while st:
+            x = st.pop()
+            if isinstance(x, ast.Name):
+                out.add(x.id)
+            elif isinstance(x, ast.Subscript):
+                st.append(x.value)
+            elif isinstance(x, ast.Call):
+                if isinstance(x.func, ast.Attribute):
+                    st.append(x.func.value)
+                st.extend(x.args)
+                st.extend(k.value for k in x.keywords)
+            else:
+                st.extend(ast.iter_child_nodes(x))
+        return out
+
+    out: Set[str] = set()
+    for n in ast.walk(fn_node):
+        tg = val = None
+        if isinstance(n, ast.Assign):
+            tg, val = n.targets, n.value
+        elif isinstance(n, ast.AnnAssign) and n.value is not None:
+            tg, val = [n.target], n.value
+        elif isinstance(n, (ast.For, ast.comprehension)):
+            tg, val = [n.target], n.iter
+        if tg is None:
+            continue
+        if not any(isinstance(x, ast.Name) and x.id == name
+                   for t in tg for x in ast.walk(t)):
+            continue
+        for s in srcs(val):
+            out |= _roots(fn_node, s, params, seen)
+    return out
+
+
+def _r9(repo: Repo, ctx) -> None:
+    """(a) a tuple rebuilt from its elements takes the element names from
+           the same type it takes `named` from;
+       (b) instantiating a polymorphic tuple type recurses into each
+           polymorphic element (it never substitutes the concrete type for
+           the element itself)."""
+    ctx.floor('C12.R9', 4)
+    n_a = 0
+    m = repo.module('edb.edgeql.compiler.casts')
+    for fn in repo._funcs_of(m):
+        params = set(fn.params())
+        tparams = {p for p in params if p.endswith('stype')}
+        for c in ast.walk(fn.node):
+            if not (isinstance(c, ast.Call) and (call_name(c) or '').endswith(
+                    'new_tuple_set') and c.args):
+                continue
+            nk = kwarg(c, 'named')
+            if not (isinstance(nk, ast.Call) and isinstance(
+                    nk.func, ast.Attribute) and nk.func.attr == 'is_named'
+                    and isinstance(nk.func.value, ast.Name)):
+                continue
+            T = nk.func.value.id
+            lst = norm(c.args[0])
+            # the appends that feed this call: the nearest ones above it
+            # in the same block nest
+            apps = [a for a in ast.walk(fn.node) if isinstance(a, ast.Call)
+                    and norm(a.func) == f'{lst}.append' and a.args
+                    and isinstance(a.args[0], ast.Call)
+                    and (call_name(a.args[0]) or '').endswith('TupleElement')
+                    and a.lineno < c.lineno]
+            inits = [a.lineno for a in ast.walk(fn.node)
+                     if isinstance(a, ast.Assign) and norm(a.targets[0]) ==
+                     lst and a.lineno < c.lineno]
+            start = max(inits) if inits else 0
+            apps = [a for a in apps if a.lineno > start]
+            if not apps:
+                continue
+            ctx.saw(fn)
+            for a in apps:
+                nm = kwarg(a.args[0], 'name')
+                if nm is None:
+                    continue
+                n_a += 1
+                roots: Set[str] = set()
+                for x in ast.walk(nm):
+                    if isinstance(x, ast.Name):
+                        roots |= _roots(fn.node, x.id, params)
+                roots &= tparams
+                ctx.ob('C12.R9', f'{fn.name}:tuple@L'
+                       f'{c.lineno - fn.node.lineno}:names-from={T}',
+                       roots == {T},
+                       f'{fn.name} rebuilds a tuple that is named like '
+                       f'`{T}` but takes its element names from '
+                       f'{sorted(roots)}: the inferred tuple type has the '
+                       f'other type\'s element names (a cast to '
+                       f'tuple<a: int64> yields tuple<0: int64>)', fn.loc,
+                       sample=f'name={norm(nm)} <- {sorted(roots)}')
+    if n_a < 3:
+        raise AnalysisError(f'C12.R9: only {n_a} rebuilt tuples found in '
+                            f'casts.py')
+    # (b)  (Range / MultiRange wrap the concrete type directly: their
+    # element is a point scalar and cannot be a collection)
+    for cls in ('Tuple', 'Array'):
+        f = repo.func(f'edb.schema.types.{cls}._to_nonpolymorphic')
+        ctx.saw(f)
+        P = f.params()
+        conc = P[2] if len(P) > 2 else None
+        if conc is None:
+            raise AnalysisError(f'C12.R9: {cls}._to_nonpolymorphic signature')
+        uses = [x for x in ast.walk(f.node) if isinstance(x, ast.Name)
+                and x.id == conc and isinstance(x.ctx, ast.Load)]
+        rec_args = set()
+        for c in ast.walk(f.node):
+            if isinstance(c, ast.Call) and isinstance(c.func, ast.Attribute) \
+                    and c.func.attr == 'to_nonpolymorphic':
+                for a in list(c.args) + [k.value for k in c.keywords]:
+                    rec_args |= {id(x) for x in ast.walk(a)}
+        bad = [x for x in uses if id(x) not in rec_args]
+        ctx.ob('C12.R9', f'{cls}._to_nonpolymorphic:recurses', bool(uses)
+               and not bad,
+               f'{cls}._to_nonpolymorphic uses `{conc}` other than as the '
+               f'argument of the recursive to_nonpolymorphic of an element: '
+               f'a polymorphic element that is itself a collection '
+               f'(tuple<int64, array<anytype>>, array<tuple<int64, '
+               f'anytype>>) is replaced by the bare concrete type, so the '
+               f'inferred type loses a collection level', f.loc,
+               sample=f'{len(uses)} uses, all recursive arguments')
